@@ -585,8 +585,32 @@ func (r *Ref) call(f V, args []V, y yh, name string) V {
 		for i, p := range fn.Params {
 			nfr.slots[p] = args[i]
 		}
-		r.cur.frames = append(r.cur.frames, &callRec{name: name, params: fn.Params, fr: nfr})
-		defer func() { r.cur.frames = r.cur.frames[:len(r.cur.frames)-1] }()
+		// the frame stays in place when the native fails: the report shows it
+		c := r.cur
+		c.frames = append(c.frames, &callRec{name: name, params: fn.Params, fr: nfr})
+		v := r.native(fn, args)
+		c.frames = c.frames[:len(c.frames)-1]
+		return v
+	}
+	fr := &Frame{slots: map[string]V{}, written: map[string]bool{}, closure: fn.closure}
+	for i, p := range fn.Params {
+		fr.slots[p] = args[i]
+		fr.written[p] = true
+	}
+	r.depth++
+	if r.depth > r.MaxDepth {
+		r.MaxDepth = r.depth
+	}
+	c := r.cur
+	c.frames = append(c.frames, &callRec{name: name, params: fn.Params, fr: fr})
+	v, _ := r.eval(fn.body, fr, y)
+	c.frames = c.frames[:len(c.frames)-1]
+	r.depth--
+	return v
+}
+
+func (r *Ref) native(fn *Fn, args []V) V {
+	{
 		switch fn.Native {
 		case "write":
 			r.out.WriteString(Str(args[0]))
@@ -625,21 +649,6 @@ func (r *Ref) call(f V, args []V, y yh, name string) V {
 		}
 		panic("ref: native " + fn.Native)
 	}
-	fr := &Frame{slots: map[string]V{}, written: map[string]bool{}, closure: fn.closure}
-	for i, p := range fn.Params {
-		fr.slots[p] = args[i]
-		fr.written[p] = true
-	}
-	r.depth++
-	if r.depth > r.MaxDepth {
-		r.MaxDepth = r.depth
-	}
-	c := r.cur
-	c.frames = append(c.frames, &callRec{name: name, params: fn.Params, fr: fr})
-	v, _ := r.eval(fn.body, fr, y)
-	c.frames = c.frames[:len(c.frames)-1]
-	r.depth--
-	return v
 }
 
 func (r *Ref) evalFor(n *rn, fr *Frame, y yh) (V, bool) {
